@@ -196,6 +196,43 @@ def run(ctx, rep):
         if differs(on_copy, own) or not np.array_equal(on_copy, own):
             problem("forward(X) on net.copy() differs", "forward:copy", on_copy.tolist(), own.tolist(),
                     "C12_history_independent")
+        # re-binding the weight vector (how fit() stores trained weights) after an earlier forward call:
+        # the next forward must use the weights the net carries NOW
+        saved_w = net._weights
+        new_w = np.array([dyadic(rng) if exact else rng.uniform(-2, 2) for _ in range(nw)], dtype=np.float64)
+        if (not exact) or all(N.exact_float_ok(set(N.net_fields(net)[0]), N.net_fields(net)[3], N.net_fields(net)[5], xr, new_w, limit=1 << 44) for xr in X):
+            net._weights = new_w
+            rebound = net.forward(X)
+            expect = net.forward(X, new_w.reshape(1, -1))
+            net._weights = saved_w
+            rep.count(family + ":rebind", key)
+            if differs(rebound, expect):
+                problem("after re-binding net._weights, forward(X) still evaluates earlier weights (result depends on earlier forward calls)",
+                        "forward:stale-weights", rebound.tolist(), expect.tolist(), "C12_history_independent")
+            back = net.forward(X)
+            if differs(back, own):
+                problem("forward(X) after restoring the weights differs from the first call", "forward:history", back.tolist(), own.tolist(),
+                        "C12_history_independent")
+        # samples are evaluated independently, whatever the scale of the OTHER samples in the batch
+        if X.shape[0] >= 3:
+            Xs = X.copy()
+            Xs[0] = Xs[0] * 2048.0
+            Xs[1] = Xs[1] / 1024.0
+            if offset:
+                Xs[:, -1] = 1.0
+            big = net.forward(Xs)
+            rep.count(family + ":scale", key)
+            soft = any(c == 5 for c in acts.values()) and all(acts[int(o)] == 5 for o in net._numpy_outputs)
+            for i in range(Xs.shape[0]):
+                alone = net.forward(Xs[i:i + 1])
+                a, b = np.asarray(big[0][i]), np.asarray(alone[0][0])
+                bad = (not np.all(np.isfinite(a))) or a.shape != b.shape or bool(np.max(np.abs(a - b) / np.maximum(1.0, np.abs(b)), initial=0.0) > 1e-9)
+                if soft and not bad:
+                    bad = bool(np.any(a < 0) or abs(float(a.sum()) - 1.0) > 1e-9)
+                if bad:
+                    problem(f"sample {i} of a batch with widely different scales is not evaluated as it is alone (or is not finite / not normalised)",
+                            "forward:sample-independence", big[0][i].tolist(), alone[0][0].tolist(), "C12_forward_is_ref")
+                    break
         # shuffled connection rows (with their weights) on a fresh net
         ins, layers, outs, con, _, acts_l = N.net_fields(net)
         perm = list(range(nw))
